@@ -148,6 +148,10 @@ type spec struct {
 	Post    bool        `json:"cfg_auth_method_post"`
 	PKJWT   bool        `json:"cfg_auth_method_private_key_jwt"`
 	Refresh bool        `json:"cfg_grant_type_refresh_token"`
+	// OddAuth: the registration names a token-endpoint auth method the library has no branch for ("" = unset, or
+	// client_secret_jwt) although the client holds a secret: every refusal obligation of a secret-holding client
+	// stays (no / wrong secret is never enough); success is not counted for it
+	OddAuth string      `json:"registered_auth_method_override,omitempty"`
 	Naive   bool        `json:"storage_compares_secrets_naively"` // AuthorizeClientIDSecret is a plain comparison (a client without secret matches "")
 	Dyn     bool        `json:"cfg_issuer_from_host"`   // the provider derives its issuer from the request's Host
 	HostB   bool        `json:"request_to_second_host"` // with Dyn: the request goes to the provider's second host name
@@ -354,6 +358,9 @@ func buildSpec(r *rand.Rand, idx int) *spec {
 	s.CredPlace = []int{placeBody, placeBody, placeBody, placeQuery, placeBoth, placeDifferent}[r.IntN(6)]
 	s.ParamPlace = []int{placeBody, placeBody, placeBody, placeQuery, placeBoth}[r.IntN(5)]
 	s.GTPlaceStr, s.CredStr, s.ParamStr = gtPlaceNames[s.GTPlace], placeNames[s.CredPlace], placeNames[s.ParamPlace]
+	if s.Auth == authBasic && r.IntN(6) == 0 {
+		s.OddAuth = []string{"unset", "client_secret_jwt"}[r.IntN(2)]
+	}
 	if r.IntN(6) == 0 {
 		s.FaultAt, s.FaultKind = 1+r.IntN(5), r.IntN(int(vstore.NumFaultKinds))
 	}
